@@ -25,6 +25,10 @@ FAMILIES = [
     ("tcp", "./p2p/transport/tcp", "^TestVerifC04Tcp$"),
     ("swarm", "./p2p/net/swarm", "^TestVerifC04Swarm$"),
     ("host", "./p2p/host/basic", "^TestVerifC04Host$"),
+    # fifth family "transports": the transports the other four do not drive
+    ("tcpreuse", "./p2p/transport/tcpreuse", "^TestVerifC04Tcpreuse$"),
+    ("ws", "./p2p/transport/websocket", "^TestVerifC04Websocket$"),
+    ("quic", "./p2p/transport/quic", "^TestVerifC04Quic$"),
 ]
 
 
@@ -66,6 +70,17 @@ def diagnose(reset, evs):
             for o in obj:
                 if rmof.get(o) == e.get("rm"):
                     obj[o] = "ended"
+        elif ev == "residue":
+            r = e["rm"]
+            mine = [o for o in obj if rmof.get(o) == r and obj[o] in ("pending", "live")]
+            if e.get("holepunch"):
+                probs.append("residue:%s:holepunch" % r)
+            if e.get("endpoints"):
+                probs.append("residue:%s:endpoints" % r)
+            if e.get("conns", 0) > sum(1 for o in mine if kinds.get(o, ("", ""))[0] == "conn"):
+                probs.append("residue:%s:conns" % r)
+            if not mine and e.get("listeners"):
+                probs.append("residue:%s:listeners" % r)
         elif ev == "audit":
             r = e["rm"]
             mine = [o for o in obj if rmof.get(o) == r]
@@ -252,7 +267,8 @@ def run(ctx):
         "virtual time (testing/synctest): stalls run into the code's own deadlines (accept timeout, negotiate timeout, yamux keep-alive, dial and NewStream contexts)",
         "usage is read with Stat() at quiescent points; final audits are taken after the owner of every object has closed it (or the swarm/host was closed) and the listener's Close has returned; the goroutine census is the set of goroutines left in the run's bubble",
         "swarm family: stub transport connections that own a real connection scope; host family: an in-memory TCP-shaped transport around the real upgrader",
-        "QUIC / WebSocket / WebTransport / WebRTC listeners' own clean-up paths are not fault-injected",
+        "transports family: QUIC over an in-memory UDP network (faults = black-holing a direction from datagram k, cancel / Close at datagram k); the raw QUIC connection counts as closed when no datagram flows during eight keep-alive periods after everything was closed; tcpreuse and the websocket listener are built around a fake manet.Listener by a harness copy of their constructors' struct literals (the socket is the only thing replaced); websocket Dial runs over loopback sockets with verdicts from Stat(), socket descriptors and what the server saw",
+        "wss (TLS websocket), WebTransport and WebRTC are not fault-injected; QUIC key-extraction failure in wrapConn is not reachable through a real handshake",
     ]}
 
 
@@ -391,6 +407,20 @@ def model_exit(x):
                 "handed:swarmclosed": ["in|handed|swarmclosed", "out|handed|swarmclosed"]}.get(p[1], [])
     if p[0] == "host":
         return []
+    if p[0] == "quic":   # the QUIC handshake is the transport's "dial"; gater / SetPeer come after it
+        return {"rm-open-a": ["out|dial|rcmgr-open"], "rm-setpeer-a": ["out|dial|rcmgr-setpeer"], "no-listener": ["out|dial|dial-error"],
+                "wrong-key": ["out|dial|dial-error"], "ctx-cancelled": ["out|dial|dial-error"], "drop": ["out|dial|dial-error"],
+                "cancel": ["out|dial|dial-error"], "gater-secured-a": ["out|gated|gater"], "rm-open-b": ["in|accept|rcmgr-open"],
+                "gater-accept-b": ["in|accept|gater"], "gater-secured-b": ["in|gated|gater"], "rm-setpeer-b": ["in|setpeer|rcmgr"]}.get(p[1], [])
+    if p[0] == "ws":
+        return {"lo-rm-open": ["out|dial|rcmgr-open"], "lo-refused": ["out|dial|dial-error"], "lo-tcp-close": ["out|dial|dial-error"],
+                "lo-tcp-silent": ["out|dial|dial-error"], "lo-http-200": ["out|dial|dial-error"], "lo-ctx-cancelled": ["out|dial|dial-error"],
+                "lo-rm-setpeer": ["out|setpeer|rcmgr"], "lo-gater-secured": ["out|gated|gater"],
+                "silent": ["in|wsneg|ctx"], "half-request": ["in|wsneg|ctx"], "http-get": ["in|wsneg|io"], "garbage": ["in|wsneg|io"],
+                "rm-open-l": ["in|accept|rcmgr-open"], "rm-setpeer-l": ["in|setpeer|rcmgr"], "gater-secured-l": ["in|gated|gater"]}.get(p[1], [])
+    if p[0] == "tcpreuse":
+        return {"sample-close": ["in|demux|io"], "sample-silent": ["in|demux|io"], "fault": ["in|demux|io"], "route": ["in|demux|nolistener"],
+                "accept-timeout": ["in|demux|ctx"], "close": ["in|demux|ctx"]}.get(p[1], [])
     side, stage, kind = p
     if side == "":
         return {"gater-accept": ["in|accept|gater"], "gater-secured-d": ["out|gated|gater"], "gater-secured-l": ["in|gated|gater"],
